@@ -2255,7 +2255,11 @@ fn foreach_next(xs: &mut State) -> Xresult {
         .range.start;
     if idx == 0 {
         let items = xs.pop_data()?;
+        let old = xs.loops.last().unwrap().clone();
         xs.loops.last_mut().unwrap().items = items;
+        if xs.is_recording() {
+            xs.add_reverse_step(ReverseStep::LoopNextBack(old));
+        }
     }
     OK
 }
